@@ -14,7 +14,7 @@ H = 'C06_values.py'
 
 
 def obligations(thorough):
-    T = 1100 if thorough else 200
+    T = 1100 if thorough else 300
     sl_small = 3 if thorough else 2        # classes with <= 2 string fields
     sl = 2 if thorough else 1              # classes with many string fields (uniform length per object)
     base = dict(VH_STRLEN=sl, VH_MAXN=3 if thorough else 2, VH_NU=3 if thorough else 2,
